@@ -78,10 +78,7 @@ var thinks = []think{
 // other broker + one append, e leader-epoch bump of t/0 (same leader) + one
 // append, x every fetch connection of the consumer dropped, s the next
 // incremental Fetch on each broker answered FETCH_SESSION_ID_NOT_FOUND.
-const (
-	dopsQuick    = "aAtTmxs"
-	dopsThorough = "aAtTmexs"
-)
+const dops = "aAtTmexs"
 
 type dcall struct {
 	op   byte
@@ -242,9 +239,9 @@ func genScenario() *netctl.Scenario {
 		MaxPoints: 400,
 		Setup: func(x *netctl.Exec) {
 			thorough := ev.Thorough()
-			cfgs, ths, ops, l := gcfgs[:5], thinks[:2], dopsQuick, 2
+			cfgs, ths, ops, l := gcfgs[:5], thinks[:2], dops, 2
 			if thorough {
-				cfgs, ths, ops, l = gcfgs, thinks[1:], dopsThorough, 3
+				cfgs, ths, l = gcfgs, thinks[1:], 3
 			}
 			var cfgNames, thNames []string
 			for _, c := range cfgs {
@@ -333,7 +330,7 @@ func genScenario() *netctl.Scenario {
 }
 
 // GenPlans returns the generated family. Quick: 5 configurations x 2 think
-// options x 4 polling scripts x 316 disruptor scripts on the default schedule;
+// options x 4 polling scripts x 409 disruptor scripts on the default schedule;
 // thorough: 7 x 3 x 11 x 673 on the default schedule, then every single
 // deviation (time-capped).
 func GenPlans() []nrun.Plan {
